@@ -109,6 +109,57 @@ def _apply_dict_op(el, name, r):
     return "set", obj
 
 
+def _apply_member_op(el, a):
+    """a member removal / addition on a mapping AFTER its last set() (pop, del, clear, item assignment): legitimate
+    on a SparseDict, a TypeError/KeyError on other mappings or absent members — those are simply not applied.
+    None of them touches `.raw` or the declared fields."""
+    try:
+        if a["op"] == "pop":
+            el.pop(a["key"])
+        elif a["op"] == "del":
+            del el[a["key"]]
+        elif a["op"] == "clear":
+            el.clear()
+        elif a["op"] == "assign":
+            el[a["key"]] = a.get("value", "v")
+        else:
+            raise ValueError(a["op"])
+    except (TypeError, KeyError, NotImplementedError):
+        pass
+
+
+def _member_validators(specs):
+    import flatland.validation as V
+    out = []
+    for sp in specs:
+        out.append(getattr(V, sp[0])(*sp[1:]))
+    return out
+
+
+def _apply_vstate(cont, vs):
+    """prior validation state on a container and its children — none of it is an input of any documented predicate:
+    an earlier whole-tree validate() (members may carry other validators: b['vstate']['member_validators']), members
+    repaired / appended afterwards, `.valid` assigned arbitrarily (True / False / Unevaluated), errors left on members"""
+    from flatland.schema.base import Unevaluated
+    if vs.get("prevalidate"):
+        cont.validate()
+    for i, val in vs.get("repair", []):
+        kids = list(cont.children)
+        if i < len(kids):
+            kids[i].set(val)
+    for val in vs.get("append", []):
+        if hasattr(cont, "append"):
+            cont.append(val)
+    kids = list(cont.children)
+    for i, flag in vs.get("flags", []):
+        target = cont if i == "container" else (kids[i] if i < len(kids) else None)
+        if target is not None:
+            target.valid = Unevaluated if flag is None else flag
+    for i, msgs in vs.get("sib_errors", []):
+        if i < len(kids):
+            kids[i].errors.extend(msgs)
+
+
 def build(case):
     """-> the element on the real flatland, after the recipe's whole history of set()/set_flat() calls.
     `b["history"]` lists earlier inputs (good, bad, garbage) applied before the recipe's final one; the element
@@ -151,6 +202,8 @@ def build(case):
         member = _scalar_cls(b["member"]).named(b.get("member_name"))
         if "member_label" in b:
             member = member.using(label=b["member_label"])
+        if b.get("vstate", {}).get("member_validators"):
+            member = member.using(validators=_member_validators(b["vstate"]["member_validators"]))
         cont = getattr(flatland, kind).named(b.get("name")).of(member)
         if "label" in b:
             cont = cont.using(label=b["label"])
@@ -164,6 +217,8 @@ def build(case):
             obj = _seq_value(b["values"])
             el.set(obj)
             op = "set"
+        if "vstate" in b:
+            _apply_vstate(el, b["vstate"])
         target = el[b["index"]] if "index" in b else el
         return tag(target, el, op, obj)
     if kind == "fields":
@@ -178,6 +233,8 @@ def build(case):
             el.set(_garbage(h["garbage"]) if "garbage" in h else dict(h["pairs"]))
         for f in b["fields"]:
             el[f["name"]].set(f.get("set"))
+        if "vstate" in b:
+            _apply_vstate(el, b["vstate"])
         target = el[b["child"]] if "child" in b else el
         return tag(target, el, None, None)
     if kind == "Dict":
@@ -189,6 +246,8 @@ def build(case):
             o, x = _apply_dict_op(el, b.get("name"), r)
             if o is not None:
                 op, obj = o, x
+        for a in b.get("after", []):
+            _apply_member_op(el, a)
         return tag(el, el, op, obj)
     raise ValueError(kind)
 
@@ -201,6 +260,12 @@ def mk_validator(vd):
     for attr, m in d.pop("messages", []):
         d[attr] = m if isinstance(m, str) else tuple(m)
     C = Luhn10 if cls == "Luhn10" else getattr(V, cls)
+    if d.pop("note", "error") == "warning":
+        # the same validator reporting through Validator.note_warning (the real method, with the real key / keywords)
+        C = type(C.__name__, (C,), {"note_error": V.Validator.note_warning})
+    lib = d.pop("lib", None)
+    if lib:
+        d["urlparse"] = FakeLib(lib)
     paths = d.pop("field_paths", None)
     if cls in ("MapEqual", "ValuesEqual", "UnisEqual"):
         return C(*paths, **d)
@@ -228,10 +293,12 @@ def mk_validator(vd):
         kw.update({k: v for k, v in d.items() if k not in ("allowed_schemes", "allowed_parts")})
         return C(**kw)
     if cls == "HTTPURLValidator":
-        kw = {k: v for k, v in d.items() if k not in ("required_parts", "forbidden_parts")}
+        kw = {k: v for k, v in d.items() if k not in ("required_parts", "forbidden_parts", "all_parts")}
         for k in ("required_parts", "forbidden_parts"):
             if d.get(k) is not None:
-                kw[k] = {p: (True if r is True else tuple(r)) for p, r in d[k]}
+                kw[k] = {p: (r if isinstance(r, bool) or r is None else tuple(r)) for p, r in d[k]}
+        if d.get("all_parts") is not None:
+            kw["all_parts"] = tuple(d["all_parts"])
         return C(**kw)
     if cls == "URLCanonicalizer":
         kw = {k: v for k, v in d.items() if k != "discard_parts"}
@@ -239,6 +306,105 @@ def mk_validator(vd):
             kw["discard_parts"] = tuple(d["discard_parts"])
         return C(**kw)
     return C(**d)
+
+
+# ------------------------------------------------------------------ `self.urlparse`: the standard module or a stand-in
+
+
+class _FakeParsed(tuple):
+    """a parse result whose derived attributes can be overridden (a text, None, or 'raises' = ValueError)"""
+
+    def __new__(cls, real, over):
+        obj = tuple.__new__(cls, tuple(real))
+        obj._real, obj._over = real, over
+        return obj
+
+    def __getattr__(self, name):
+        over = self.__dict__.get("_over", {})
+        if name in over:
+            if over[name] == "raises":
+                raise ValueError("unreadable " + name)
+            return over[name]
+        return getattr(self.__dict__["_real"], name)
+
+
+_EXC = {"ValueError": ValueError, "TypeError": TypeError, "KeyError": KeyError, "AttributeError": AttributeError,
+        "RuntimeError": RuntimeError, "LookupError": LookupError}
+
+
+class FakeLib:
+    """an object that 'implements urlparse.urlparse and urlparse.urlunparse' (the documented `urlparse` attribute):
+    the standard functions with the deviations listed in `spec`"""
+
+    def __init__(self, spec):
+        self.spec = spec
+
+    def urlparse(self, text):
+        if self.spec.get("parse_raises"):
+            raise _EXC[self.spec["parse_raises"]]("stand-in urlparse")
+        real = _urlparse.urlparse(text)
+        return _FakeParsed(real, self.spec.get("attrs", {}))
+
+    def urlunparse(self, parts):
+        mode = self.spec.get("unparse")
+        if mode == "raises":
+            raise TypeError("stand-in urlunparse")
+        out = _urlparse.urlunparse(tuple(parts))
+        if mode == "upper":
+            return out.upper()
+        if mode == "none":
+            return None
+        if mode == "marker":
+            return "<" + "|".join(parts) + ">"
+        return out
+
+
+def lib_of(vd):
+    """the object the validator gets as `urlparse` (None: the class default, the standard module)"""
+    return FakeLib(vd["lib"]) if vd.get("lib") else None
+
+
+def _parse_entry(lib, text):
+    try:
+        r = (lib or _urlparse).urlparse(text)
+    except Exception as e:
+        return [text, {"raises": type(e).__name__}]
+    six = list(r)
+    rec = {"six": six if all(isinstance(x, str) for x in six) and len(six) == 6 else {"other": "parts"}}
+    for name in ("username", "password", "hostname", "port"):
+        try:
+            x = getattr(r, name)
+        except ValueError:
+            x = {"raises": True}
+        rec[name] = x if (x is None or isinstance(x, (str, int, dict))) and not isinstance(x, bool) else {"other": type(x).__name__}
+    return [text, rec]
+
+
+def lib_view(vd, val):
+    """what `self.urlparse` answers on the texts this validator can ask it about: urlparse(value) and
+    urlparse(value.strip()) — computed by Python, the model does its own stripping and looks the text up — and, for a
+    stand-in urlunparse, its answer on the blanked parts (the standard urlunparse is modelled in Lean: `stdUnparse`)"""
+    lib = lib_of(vd)
+    texts = [val] + ([val.strip()] if val.strip() != val else [])
+    out = {"parse": [_parse_entry(lib, t) for t in texts], "unparse": None}
+    if lib is not None and lib.spec.get("unparse") and vd["cls"] == "URLCanonicalizer":
+        table = []
+        discard = vd.get("discard_parts")
+        discard = ["fragment"] if discard is None else discard
+        try:
+            parts = list(lib.urlparse(val))
+            for p in discard:
+                if p in URL_PARTS:
+                    parts[URL_PARTS.index(p)] = ""
+            try:
+                r = lib.urlunparse(parts)
+                table.append([parts, {"v": _jval(r)}])
+            except Exception as e:
+                table.append([parts, {"raises": type(e).__name__}])
+        except Exception:
+            pass
+        out["unparse"] = table
+    return out
 
 
 # ------------------------------------------------------------------ the view (what the model is told)
@@ -288,6 +454,8 @@ def view_of(case, el):
         view["container_label"] = _jval(cont.label)
         sibs = list(cont.children)
         view["siblings"] = [[_jval(s.value), s.u] for s in sibs]
+        # the validation state the siblings carry — told to the model, which provably ignores it (verdict_ignores_validation_state)
+        view["sibling_state"] = [[None if (s.valid is not True and s.valid is not False) else s.valid, len(s.errors)] for s in sibs]
         pos = [i for i, s in enumerate(sibs) if s is el]
         view["pos"] = pos[0] if pos else None
     if b["kind"] == "Dict":
@@ -322,40 +490,8 @@ def view_of(case, el):
         pat = case["v"].get("local_part_pattern")
         if pat is not None:
             view["local_ok"] = bool(re.compile(pat).match(val.split("@")[0]))
-    if cls == "URLValidator" and isinstance(val, str):
-        try:
-            view["url_parts"] = list(_urlparse.urlparse(val.strip()))
-        except Exception:
-            view["url_parts"] = None
-    if cls == "HTTPURLValidator" and isinstance(val, str):
-        try:
-            parsed = _urlparse.urlparse(val)
-            parts = []
-            for p in HTTP_PARTS:
-                try:
-                    x = getattr(parsed, p)
-                    if p == "port":
-                        x = None if x is None else str(x)
-                    parts.append(x)
-                except ValueError:
-                    parts.append({"raises": True})
-            view["http_parts"] = parts
-        except ValueError:
-            view["http_parts"] = None
-    if cls == "URLCanonicalizer":
-        discard = case["v"].get("discard_parts")
-        discard = ["fragment"] if discard is None else discard
-        try:
-            url = list(_urlparse.urlparse(val))
-            for p in discard:
-                if p not in URL_PARTS:
-                    continue  # an illegal part name raises in the validator (modelled); the view only says what urllib does
-                i = URL_PARTS.index(p)
-                url[i] = "" if url[i] is not None else None
-            out = _urlparse.urlunparse(url)
-            view["canon"] = {"v": _jval(out)} if _is_val(out) else {"v": {"other": type(out).__name__}}
-        except Exception:
-            view["canon"] = None
+    if cls in ("URLValidator", "HTTPURLValidator", "URLCanonicalizer") and isinstance(val, str):
+        view["lib"] = lib_view(case["v"], val)
     return view
 
 
@@ -377,6 +513,7 @@ def run_case(case):
     assert view == case["view"], "harness: element view differs from the case: %r vs %r" % (view, case["view"])
     v = mk_validator(case["v"])
     el.errors[:] = list(case.get("pre_errors", []))
+    el.warnings[:] = list(case.get("pre_warnings", []))
     is_container = isinstance(el, Container)
     before_v, before_u = (copy.deepcopy(el.value), el.u)
     warnings_before = list(el.warnings)
@@ -555,7 +692,9 @@ def documented(case, el):
         lo, hi = v.get("minimum", 1), v.get("maximum", 1)
         return lo <= n <= hi, ("exact" if lo == hi else "range", extra)
     if cls in ("SetWithKnownFields", "SetWithAllFields") and kind == "Dict":
-        # decided from the recipe's LAST set()/set_flat() alone — earlier inputs of the same element do not matter
+        # decided from the recipe's LAST set()/set_flat() alone — earlier inputs of the same element do not matter —
+        # against the DECLARED field names (b["fields"]): which members the mapping currently holds (b["after"]:
+        # pop / del / clear / item assignment on a SparseDict after the set) does not matter either
         ops = [o for o in b.get("history", []) + [b["raw"]] if o["t"] != "unset"]
         r = ops[-1] if ops else {"t": "unset"}
         if r["t"] in ("unset", "flat", "none"):
@@ -605,11 +744,15 @@ def documented(case, el):
         return (whole and n >= 0 and _luhn_textbook(n)), ("invalid", {})
     if cls == "IsEmail" and kind == "String":
         return _email_documented(el.value, v.get("non_local", True), v.get("local_part_pattern")), ("invalid", {})
+    if cls in ("URLValidator", "HTTPURLValidator", "URLCanonicalizer") and kind == "String":
+        lib = lib_of(v) or _urlparse
     if cls == "URLValidator" and kind == "String":
         # docstring: bad_format = unparseable; blocked_scheme = scheme not in allowed_schemes (all schemes with '*');
         # blocked_part = the URL has a component not in allowed_parts.  Valid iff none of the three applies.
+        if el.value is None:
+            return False, (["bad_format"], {})
         try:
-            url = _urlparse.urlparse(el.value.strip())
+            url = lib.urlparse(el.value.strip())
         except Exception:
             return False, (["bad_format"], {})
         schemes = v.get("allowed_schemes")
@@ -622,51 +765,93 @@ def documented(case, el):
             violated.append("blocked_part")
         return not violated, (violated, {})
     if cls == "HTTPURLValidator" and kind == "String":
-        # docstring: required_parts — True: the part is required; a sequence: the value must be in it.
-        # forbidden_parts — True: the part is forbidden; a sequence: the value must not be in it.
-        # An element without a value has no scheme and no hostname.
-        req = v.get("required_parts")
-        req = dict([["scheme", ["http", "https"]], ["hostname", True]] if req is None else req)
-        forb = v.get("forbidden_parts")
-        forb = dict([["username", True], ["password", True]] if forb is None else forb)
+        # docstring: all_parts — the known URL parts.  required_parts — True: the part is required; a sequence: the
+        # value must be in it.  forbidden_parts — True: the part is forbidden; a sequence: the value must not be in it.
+        # An element without a value has no part at all.  (False / None / an empty sequence: no rule.)
+        req, forb, known_parts = _http_params(v)
+        if any(p not in HTTP_VOCABULARY for p in known_parts):
+            return None, None  # all_parts outside urlparse's vocabulary: no promise
         if el.value is None:
-            vals = {p: None for p in HTTP_PARTS}
+            vals = {p: None for p in HTTP_VOCABULARY}
         else:
             try:
-                parsed = _urlparse.urlparse(el.value)
+                parsed = lib.urlparse(el.value)
             except ValueError:
                 return False, (["bad_format"], {})
-            vals = {}
-            for p in HTTP_PARTS:
-                try:
-                    vals[p] = getattr(parsed, p)
-                except ValueError:
-                    vals[p] = ValueError  # an unreadable part (a port that is not a number): the URL is malformed
-            if vals["port"] not in (None, ValueError):
-                vals["port"] = str(vals["port"])
+            except Exception:
+                return None, None  # a stand-in urlparse raising something else: not "an unparseable URL"
+            vals = _http_part_values(parsed)
         violated = []
-        if ValueError in vals.values():
+        if any(vals[p] is ValueError for p in known_parts):
             violated.append("bad_format")
-        known = {p: x for p, x in vals.items() if x is not ValueError}
-        if any((rule is True and known[p] is None) or (rule is not True and rule and known[p] not in rule)
-               for p, rule in req.items() if p in known):
+        if any(not _required_holds(req.get(p), vals[p]) for p in known_parts if vals[p] is not ValueError):
             violated.append("required_part")
-        if any((rule is True and known[p]) or (rule is not True and rule and known[p] in rule)
-               for p, rule in forb.items() if p in known):
+        if any(not _forbidden_holds(forb.get(p), vals[p]) for p in known_parts if vals[p] is not ValueError):
             violated.append("forbidden_part")
         return not violated, (violated, {})
     if cls == "URLCanonicalizer" and kind == "String":
         discard = v.get("discard_parts")
         if discard is not None and not discard:
             return True, None
+        if el.value is None:
+            return True, None
+        try:
+            parsed = lib.urlparse(el.value)
+        except Exception:
+            return False, (["bad_format"], {})
         if any(p not in URL_PARTS for p in (["fragment"] if discard is None else discard)):
             return None, None  # outside the documented vocabulary of part names
         try:
-            _urlparse.urlparse(el.value)
+            lib.urlunparse(_kept_parts(parsed, ["fragment"] if discard is None else discard))
         except Exception:
-            return False, (["bad_format"], {})
+            return None, None  # a stand-in urlunparse that raises
         return True, None
     return None, None
+
+
+HTTP_VOCABULARY = URL_PARTS + ["username", "password", "hostname", "port"]
+
+
+def _http_params(v):
+    req = v.get("required_parts")
+    req = dict([["scheme", ["http", "https"]], ["hostname", True]] if req is None else req)
+    forb = v.get("forbidden_parts")
+    forb = dict([["username", True], ["password", True]] if forb is None else forb)
+    known = HTTP_PARTS if v.get("all_parts") is None else v["all_parts"]
+    return req, forb, known
+
+
+def _http_part_values(parsed):
+    """the value of every part of the vocabulary: a text, None, or ValueError (unreadable); the port as decimal text"""
+    vals = {}
+    for p in HTTP_VOCABULARY:
+        try:
+            vals[p] = getattr(parsed, p)
+        except ValueError:
+            vals[p] = ValueError
+    if vals["port"] not in (None, ValueError):
+        vals["port"] = str(vals["port"])
+    return vals
+
+
+def _required_holds(rule, value):
+    if rule is True:
+        return value is not None
+    if not rule:
+        return True
+    return value in rule
+
+
+def _forbidden_holds(rule, value):
+    if rule is True:
+        return not value
+    if not rule:
+        return True
+    return value not in rule
+
+
+def _kept_parts(parsed, discard):
+    return ["" if URL_PARTS[i] in discard else x for i, x in enumerate(list(parsed))]
 
 
 def expected_message(validator, el, key, extra):
@@ -697,8 +882,8 @@ def oracle_case(case):
         # Element.raw: "The element's raw, unadapted value from input" — of the most recent set()
         fails.append({"clause": "raw-is-the-last-input", "expected": "element.raw is the object passed to the last set()",
                       "observed": "stale raw"})
-    want, msg = documented(case, el)
     cls = case["v"]["cls"]
+    want, msg = documented(case, el_before(case) if cls == "URLCanonicalizer" else el)
     if want is None:
         return fails
     if obs["raise"] is not None:
@@ -706,7 +891,16 @@ def oracle_case(case):
         return fails
     if want == "no-raise":
         return fails
-    pre = list(case.get("pre_errors", []))
+    warn = case["v"].get("note") == "warning"
+    if warn:
+        # note_warning: "Record a validation warning message on an element … appended to element.warnings.  Always
+        # returns False" — the same clauses with the two lists in each other's place
+        obs = dict(obs)
+        obs["errors"], obs["warnings"] = obs["warnings"], obs["errors"]
+        pre = list(case.get("pre_warnings", []))
+        obs["_warnings_unchanged"] = obs["warnings"] == list(case.get("pre_errors", []))
+    else:
+        pre = list(case.get("pre_errors", []))
     if obs["verdict"] is not want:
         # the other clauses are still evaluated (against the verdict that WAS returned): a wrong verdict that also
         # records something, warns or touches the value is more than the wrong verdict
@@ -741,22 +935,77 @@ def oracle_case(case):
         if not obs["_value_unchanged"] or not obs["_u_unchanged"]:
             fails.append({"clause": "value-unchanged", "expected": obs["_value_before"], "observed": obs["value_after"]})
     else:
-        val = obs["_value_before"]
-        discard = case["v"].get("discard_parts")
-        discard = ["fragment"] if discard is None else discard
-        if not isinstance(obs["value_after"], (str, type(None))) or (val is None and obs["value_after"] is not None):
-            fails.append({"clause": "canonical-url-is-text", "expected": val, "observed": obs["value_after"]})
-        if isinstance(val, str) and discard:
-            try:
-                u = _urlparse.urlparse(val)
-                exp = _urlparse.urlunparse(u._replace(**{p: "" for p in discard}))
-            except Exception:
-                exp = None
-            if exp is not None and obs["value_after"] != exp:
-                fails.append({"clause": "canonical-url", "expected": exp, "observed": obs["value_after"]})
+        fails += _canonical_clauses(case, obs, el, validator)
     if not obs["_warnings_unchanged"]:
         fails.append({"clause": "no-warnings", "expected": [], "observed": "warnings changed"})
+    if cls == "HTTPURLValidator" and obs["verdict"] is True and isinstance(obs["_value_before"], str):
+        fails += _http_rule_clauses(case, obs)
     return fails
+
+
+def el_before(case):
+    """the element as it is before the validator runs (URLCanonicalizer rewrites the value)"""
+    return build(case)
+
+
+def _canonical_clauses(case, obs, el, validator):
+    """URLCanonicalizer: 'Given a valid URL, re-writes it with unwanted parts removed' — the new value is the rebuild
+    (urlunparse) of the parsed parts with every member of discard_parts emptied; the value is untouched when the
+    verdict is not True; and canonicalising the canonical text again changes nothing whenever that text parses back to
+    the parts it was built from"""
+    fails = []
+    val = obs["_value_before"]
+    v = case["v"]
+    lib = lib_of(v) or _urlparse
+    discard = v.get("discard_parts")
+    discard = ["fragment"] if discard is None else discard
+    std = not (v.get("lib") or {}).get("unparse")
+    if std and (not isinstance(obs["value_after"], (str, type(None))) or (val is None and obs["value_after"] is not None)):
+        fails.append({"clause": "canonical-url-is-text", "expected": val, "observed": obs["value_after"]})
+    if obs["verdict"] is not True and not (obs["_value_unchanged"] and obs["_u_unchanged"]):
+        fails.append({"clause": "value-untouched-on-failure", "expected": val, "observed": obs["value_after"]})
+    if isinstance(val, str) and discard and obs["verdict"] is True and all(p in URL_PARTS for p in discard):
+        try:
+            kept = _kept_parts(lib.urlparse(val), discard)
+            exp = _jval(lib.urlunparse(kept))
+        except Exception:
+            kept = exp = None
+        if kept is not None and obs["value_after"] != exp:
+            fails.append({"clause": "canonical-url", "expected": exp, "observed": obs["value_after"]})
+        if kept is not None and isinstance(el.value, str):
+            try:
+                stable = list(lib.urlparse(el.value)) == kept
+            except Exception:
+                stable = False
+            if stable:
+                first = el.value
+                again = validator(el, None)
+                if again is not True or el.value != first:
+                    fails.append({"clause": "canonical-url-is-stable", "expected": first, "observed": _jval(el.value)})
+    return fails
+
+
+def _http_rule_clauses(case, obs):
+    """required_parts / forbidden_parts are 'a mapping of part names' of urlparse's vocabulary: a rule on ANY of the
+    ten names that the URL does not meet must not end in a True verdict (class of KF-C15-b: the name is not in
+    all_parts, so the loop never looks at it)"""
+    v = case["v"]
+    if v.get("all_parts") is not None:
+        return []  # the caller chose which parts are known; the documentation's ten names are the DEFAULT's claim
+    req, forb, known = _http_params(v)
+    lib = lib_of(v) or _urlparse
+    try:
+        vals = _http_part_values(lib.urlparse(obs["_value_before"]))
+    except Exception:
+        return []
+    out = []
+    for p in HTTP_VOCABULARY:
+        if p in known or vals[p] is ValueError:
+            continue
+        if not _required_holds(req.get(p), vals[p]) or not _forbidden_holds(forb.get(p), vals[p]):
+            out.append({"clause": "rule-on-a-documented-part-name-is-honoured", "expected": False, "observed": True,
+                        "_part": p, "_default_all_parts": v.get("all_parts") is None})
+    return out[:1]
 
 
 # ------------------------------------------------------------------ generators
@@ -932,6 +1181,72 @@ def rand_dup_case(rng):
     return {"v": {"cls": "NotDuplicated"}, "build": b}
 
 
+def rand_vstate(rng, n, member_kind="String"):
+    """prior validation state for a container of n children"""
+    vs = {}
+    r = rng.random()
+    if r < 0.45:
+        vs["prevalidate"] = True
+        if rng.random() < 0.7:
+            vs["member_validators"] = rng.choice([[["NotDuplicated"], ["LongerThan", 3]], [["NotDuplicated"]], [["LongerThan", 1]],
+                                                  [["Present"], ["NotDuplicated"]], [["IsTrue"]]])
+        if rng.random() < 0.5 and n:
+            vs["repair"] = [[rng.randrange(n), rng.choice(["y", "a", "zzzz", "1"] if member_kind == "String" else [7, "1", "x"])]
+                            for _ in range(rng.randint(1, 2))]
+        if rng.random() < 0.5:
+            vs["append"] = [rng.choice(["a", "x", "b", "1", "abcd"]) for _ in range(rng.randint(1, 2))]
+    if r >= 0.45 or rng.random() < 0.3:
+        m = n + len(vs.get("append", []))
+        vs["flags"] = [[rng.randrange(m), rng.choice([True, False, False, None])] for _ in range(rng.randint(1, 3))] if m else []
+        if rng.random() < 0.2:
+            vs["flags"].append(["container", rng.choice([True, False])])
+    if rng.random() < 0.3 and n:
+        vs["sib_errors"] = [[rng.randrange(n), ["left over"]]]
+    return vs
+
+
+def with_vstate(rng, case):
+    """45% of the cases whose validator looks at other elements (siblings, children, referenced fields) get prior
+    validation state on those elements"""
+    b = case["build"]
+    if rng.random() >= 0.45:
+        return case
+    if b["kind"] in ("List", "Array") and not b.get("noset") and isinstance(b.get("values"), list):
+        n = len(b["values"])
+        b["vstate"] = rand_vstate(rng, n, b["member"])
+        if "index" in b:
+            # the judged member: any position of the final list, later ones more often (they have predecessors)
+            m = n + len(b["vstate"].get("append", []))
+            if m:
+                b["index"] = rng.choice([rng.randrange(m), m - 1])
+    elif b["kind"] == "fields":
+        vs = rand_vstate(rng, len(b["fields"]))
+        vs.pop("member_validators", None)
+        vs.pop("append", None)
+        vs.pop("repair", None)
+        b["vstate"] = vs
+    return case
+
+
+def vstate_dup_cases():
+    """NotDuplicated on every member of 2-3 member lists of a/b values after a whole-tree validate() under each of three
+    member chains, and with every assignment of valid in {True, False, Unevaluated} to the members"""
+    chains = [[["NotDuplicated"], ["LongerThan", 3]], [["NotDuplicated"]], [["LongerThan", 3]]]
+    for n in (2, 3):
+        for vals in itertools.product(["ab", "abcd"], repeat=n):
+            for idx in range(n):
+                base = {"kind": "List", "name": "colors", "member": "String", "member_name": "color", "values": list(vals), "index": idx}
+                for ch in chains:
+                    yield {"v": {"cls": "NotDuplicated"}, "build": dict(base, vstate={"prevalidate": True, "member_validators": ch})}
+                for flags in itertools.product([True, False, None], repeat=n):
+                    yield {"v": {"cls": "NotDuplicated"}, "build": dict(base, vstate={"flags": [[i, f] for i, f in enumerate(flags)]})}
+    # recovery: validate ['x','x'], repair member 0, append — judged at every member
+    for idx in range(3):
+        yield {"v": {"cls": "NotDuplicated"},
+               "build": {"kind": "List", "name": "colors", "member": "String", "member_name": "color", "values": ["x", "x"], "index": idx,
+                         "vstate": {"prevalidate": True, "member_validators": [["NotDuplicated"]], "repair": [[0, "y"]], "append": ["x"]}}}
+
+
 def all_dup_positions():
     """one duplicated value at every pair of positions of a 4-member list, checked at every index"""
     for i, j in itertools.combinations(range(4), 2):
@@ -990,9 +1305,18 @@ def rand_dict_case(rng):
     else:
         raw = {"t": "dict", "pairs": [[k, "v"] for k in keys] + [[{"int": 1}, "v"]]}
     b = {"kind": "Dict", "name": rng.choice(["d", "form"]), "fields": fields, "raw": raw}
-    if rng.random() < 0.15:
+    if rng.random() < 0.3:
         b["sparse"] = True
+    if (b.get("sparse") and rng.random() < 0.65) or rng.random() < 0.05:
+        # members removed / added between the set() and the validator call (legitimate on a SparseDict)
+        pool = fields + [rng.choice(["a", "b", "c", "z", "q"])]
+        b["after"] = [rand_member_op(rng, pool) for _ in range(rng.randint(1, 3))]
     return {"v": {"cls": cls}, "build": b}
+
+
+def rand_member_op(rng, keys):
+    op = rng.choice(["pop", "del", "clear", "assign", "pop", "del"])
+    return {"op": "clear"} if op == "clear" else {"op": op, "key": rng.choice(keys)}
 
 
 EMAILS = ["a@b.c", "user@example.com", "user@localhost", "@example.com", "user@", "a@@b.c", "a b@example.com", " @example.com",
@@ -1076,8 +1400,179 @@ def email_class(value):
     return "email-%s,%s%s" % (t, i, ",non-ascii" if any(ord(c) > 127 for c in dom) else "")
 
 
+URL_KEYS = {"URLValidator": ["bad_format", "blocked_scheme", "blocked_part"],
+            "HTTPURLValidator": ["bad_format", "required_part", "forbidden_part"],
+            "URLCanonicalizer": ["bad_format"]}
+_WS = ["", "", "", " ", "  ", "\t", "\n", "\u00a0", "\x1c", "\u2003", "\u200b", "\x00"]
+_SCHEMES = ["http", "http", "https", "https", "ftp", "HTTP", "", "x-y", "mailto", "javascript", "svn+ssh", "1http", "file"]
+_USERINFO = ["", "", "", "u@", "u:p@", ":p@", "u:@", "@", "u:p:q@", "a@b@"]
+_HOSTS = ["h.example", "example.com", "", "[::1]", "[::1", "::1]", "[v1.x]", "H", "[invalid]", "exa mple.com", "b\u00fccher.de",
+          "127.0.0.1", "[2001:db8::1]", "[]", "a]b"]
+_PORTS = ["", "", "", ":80", ":443", ":x", ":", ":99999", ":65535", ":65536", ":-1", ":\uff18\uff10", ":0", ":080", ":8 0"]
+_PATHS = ["", "/", "/p;x", "/p q", "/a/b", ";x", "p", "//x", "/;"]
+_QUERIES = ["", "", "?q=1", "?", "?a=1&b=2", "?#"]
+_FRAGMENTS = ["", "", "#f", "#", "#a#b", "#?x"]
+_RULE_VALUES = {"scheme": [["http", "https"], ["https"], ["https", ""], ["ftp"]], "hostname": [["h.example", "example.com"], ["::1"]],
+                "port": [["80", "443"], ["65535"]], "path": [["/"], ["", "/"]], "netloc": [["example.com"], ["h.example:80"]],
+                "username": [["u"]], "password": [["p"]], "query": [["q=1"]], "fragment": [["f"]], "params": [["x"]]}
+
+
+def rand_url_text(rng):
+    r = rng.random()
+    if r < 0.2:
+        return rng.choice(URLS)
+    return (rng.choice(_WS) + rng.choice(_SCHEMES) + rng.choice(["://", "://", "://", ":", ""]) + rng.choice(_USERINFO) +
+            rng.choice(_HOSTS) + rng.choice(_PORTS) + rng.choice(_PATHS) + rng.choice(_QUERIES) + rng.choice(_FRAGMENTS) + rng.choice(_WS))
+
+
+def rand_rules(rng):
+    rules = []
+    for name in rng.sample(HTTP_VOCABULARY, rng.randint(0, 3)):
+        r = rng.random()
+        if r < 0.4:
+            rule = True
+        elif r < 0.8:
+            rule = rng.choice(_RULE_VALUES[name])
+        elif r < 0.9:
+            rule = []
+        else:
+            rule = rng.choice([False, None])
+        rules.append([name, rule])
+    return rules
+
+
+def rand_url_case(rng, cls):
+    b = {"kind": "String", "name": rng.choice(["url", "url", None]), "set": None if rng.random() < 0.06 else rand_url_text(rng)}
+    if isinstance(b["set"], str) and b["set"].strip() != b["set"] and rng.random() < 0.7:
+        # String elements strip their input; a validator may assign the value ("only validation routines should write
+        # this attribute directly"), so surrounding white space reaches the URL validators this way
+        b["assign"] = {"value": b["set"], "u": b["set"]}
+    v = {"cls": cls}
+    if cls == "URLValidator":
+        if rng.random() < 0.6:
+            v["allowed_schemes"] = rng.choice([["http", "https"], ["ftp"], ["*"], [], ["*", "http"], ["HTTP"], ["http"], ["https", "x-y", "mailto"]])
+        if rng.random() < 0.6:
+            v["allowed_parts"] = rng.sample(URL_PARTS, rng.randint(0, 6))
+            if rng.random() < 0.1:
+                v["allowed_parts"].append(rng.choice(["port", "hostname"]))
+    elif cls == "HTTPURLValidator":
+        if rng.random() < 0.55:
+            v["required_parts"] = rand_rules(rng)
+        if rng.random() < 0.55:
+            v["forbidden_parts"] = rand_rules(rng)
+        r = rng.random()
+        if r < 0.12:
+            v["all_parts"] = HTTP_PARTS + ["netloc"]
+        elif r < 0.2:
+            v["all_parts"] = rng.sample(HTTP_VOCABULARY, rng.randint(0, 10))
+        elif r < 0.24:
+            v["all_parts"] = rng.sample(HTTP_PARTS, 4) + ["scheme"]
+        elif r < 0.26:
+            v["all_parts"] = ["scheme", "bogus", "hostname"]
+    else:
+        r = rng.random()
+        if r < 0.55:
+            v["discard_parts"] = rng.sample(URL_PARTS, rng.randint(0, 6))
+        elif r < 0.62:
+            v["discard_parts"] = rng.choice([["fragment", "fragment"], ["query", "fragment", "query"]])
+        elif r < 0.68:
+            v["discard_parts"] = rng.choice([["port"], ["fragment", "hostname"], ["username", "query"]])
+    if rng.random() < 0.12:
+        lib = {}
+        r = rng.random()
+        if r < 0.3:
+            lib["parse_raises"] = rng.choice(["ValueError", "TypeError", "KeyError"])
+        elif r < 0.7:
+            lib["attrs"] = rng.choice([{"hostname": "raises"}, {"username": "raises"}, {"password": "raises"}, {"hostname": None},
+                                       {"hostname": "other.example"}, {"port": 8080}, {"port": None, "hostname": "raises"}])
+        if cls == "URLCanonicalizer" and (not lib or rng.random() < 0.5):
+            lib["unparse"] = rng.choice(["upper", "none", "raises", "marker"])
+        if not lib:
+            lib["attrs"] = {}
+        v["lib"] = lib
+    if rng.random() < 0.6:
+        # every message attribute gets its own text, so that WHICH message was noted is observable
+        v["messages"] = [[k, "K:" + k + " %(label)s"] for k in URL_KEYS[cls]]
+        if rng.random() < 0.08:
+            v["messages"][rng.randrange(len(v["messages"]))][1] = ""
+    return {"v": v, "build": b}
+
+
+def url_tags(case, obs):
+    """coverage of the URL validators: which message was noted, the shape of the parse record, the parameter forms"""
+    v = case["v"]
+    t = []
+    ms = dict((k, m) for k, m in v.get("messages", []) if isinstance(m, str))
+    noted = "?"
+    if obs.get("raise"):
+        noted = "raise"
+    elif obs.get("verdict") is True:
+        noted = "ok"
+    else:
+        new = [m for m in (obs.get("errors") or []) + (obs.get("warnings") or []) if isinstance(m, str) and m.startswith("K:")]
+        if new:
+            noted = new[-1].split(" ")[0][2:]
+        elif any(m == "" for m in ms.values()):
+            noted = "empty-message"
+    t.append("url-noted=%s:%s" % (v["cls"], noted))
+    lib = (case["view"].get("lib") or {})
+    entries = lib.get("parse") or []
+    if len(entries) > 1:
+        t.append("url-strip-needed")
+    if entries:
+        rec = entries[-1][1]
+        if "raises" in rec:
+            t.append("url-parse=raises-" + rec["raises"])
+        elif isinstance(rec.get("six"), list):
+            six = rec["six"]
+            t.append("url-scheme=" + ("empty" if six[0] == "" else six[0] if six[0] in ("http", "https", "ftp") else "other"))
+            t.append("url-netloc=" + ("empty" if six[1] == "" else "present"))
+            for i, nm in enumerate(URL_PARTS[2:], 2):
+                if six[i] != "":
+                    t.append("url-has-" + nm)
+            def kind(x):
+                return "raises" if isinstance(x, dict) else "None" if x is None else "int" if isinstance(x, int) else "text" if x != "" else "empty"
+            t.append("url-port=" + kind(rec.get("port")))
+            t.append("url-hostname=" + kind(rec.get("hostname")) + ("-ipv6" if isinstance(rec.get("hostname"), str) and ":" in rec["hostname"] else ""))
+            t.append("url-userinfo=%s/%s" % (kind(rec.get("username")), kind(rec.get("password"))))
+            if "[" in six[1] or "]" in six[1]:
+                t.append("url-brackets-in-netloc")
+    elif case["view"].get("value") is None:
+        t.append("url-value=None")
+    if v.get("lib"):
+        t.append("url-lib=stand-in:" + ",".join(sorted(k + ("=" + str(x) if k != "attrs" else "") for k, x in v["lib"].items())))
+    if v["cls"] == "URLValidator":
+        sch = v.get("allowed_schemes")
+        t.append("url-param:allowed_schemes=" + ("default" if sch is None else "star" if sch == ["*"] else "empty" if not sch else "list"))
+        ap = v.get("allowed_parts")
+        t.append("url-param:allowed_parts=" + ("default" if ap is None else "%d" % len(ap)))
+    if v["cls"] == "HTTPURLValidator":
+        for key in ("required_parts", "forbidden_parts"):
+            if v.get(key) is None:
+                t.append("url-param:%s=default" % key)
+            for nm, rule in (v.get(key) or []):
+                form = "True" if rule is True else "off" if rule in (False, None) else "empty" if not rule else "values"
+                t.append("url-param:%s:%s" % (key, form))
+                if nm == "netloc":
+                    t.append("url-param:rule-on-netloc")
+        ap = v.get("all_parts")
+        t.append("url-param:all_parts=" + ("default" if ap is None else "with-netloc" if ap == HTTP_PARTS + ["netloc"] else "custom"))
+    if v["cls"] == "URLCanonicalizer":
+        d = v.get("discard_parts")
+        t.append("url-param:discard_parts=" + ("default" if d is None else "%d" % len(d) if all(x in URL_PARTS for x in d) else "bad-name"))
+        if obs.get("verdict") is True and obs.get("value_after") != case["view"].get("value"):
+            t.append("url-canonical=rewritten")
+        elif obs.get("verdict") is True:
+            t.append("url-canonical=same-text")
+    if v.get("note") == "warning":
+        t.append("note_warning")
+    return t
+
+
 def rand_net_case(rng):
-    cls = rng.choice(["IsEmail", "URLValidator", "HTTPURLValidator", "URLCanonicalizer"])
+    cls = rng.choice(["IsEmail", "URLValidator", "HTTPURLValidator", "HTTPURLValidator", "URLCanonicalizer"])
+    if cls != "IsEmail":
+        return rand_url_case(rng, cls)
     b = {"kind": "String", "name": rng.choice(["email", "url", None])}
     v = {"cls": cls}
     r = rng.random()
@@ -1249,8 +1744,15 @@ def with_pre_errors(rng, case):
     return case
 
 
-_MAKERS = [(rand_numeric_case, 0.08), (rand_scalar_case, 0.30), (rand_seq_case, 0.1), (rand_dup_case, 0.1), (rand_fields_case, 0.1),
-           (rand_dict_case, 0.12), (rand_net_case, 0.14), (hostile_case, 0.06)]
+def _vs(maker):
+    def f(rng):
+        return with_vstate(rng, maker(rng))
+    f.__name__ = maker.__name__
+    return f
+
+
+_MAKERS = [(rand_numeric_case, 0.08), (rand_scalar_case, 0.27), (_vs(rand_seq_case), 0.09), (_vs(rand_dup_case), 0.09), (_vs(rand_fields_case), 0.09),
+           (rand_dict_case, 0.12), (rand_net_case, 0.20), (hostile_case, 0.06)]
 
 
 def PROP_GEN(rng):
@@ -1264,7 +1766,12 @@ class C15(Property):
     title = "built-in validators decide their documented predicate and explain failures"
     proof_module = "Proofs.C15"
     theorems = ["Flatland.C15.Proofs." + t for t in (
-        "decides", "C15_full", "setWith_nontext_key_reported", "setWith_bad_pairs_valid",
+        "decides_partial", "C15_partial", "C15_full_fails", "setWith_nontext_key_reported", "setWith_bad_pairs_valid",
+        "decides_urlValidator", "urlValidate_eq", "urlPartsLoop_eq",
+        "decides_httpURL_partial", "httpURL_key", "httpPartsLoop_eq", "attr_table", "http_no_value_accepted", "C15_HttpFull_fails",
+        "http_rule_honoured_partial", "http_netloc_rule_ignored",
+        "decides_urlCanonicalizer", "canonicalizer_value", "canonicalizer_failure_keeps_value", "canonicalizer_idempotent",
+        "blankLoop_ok", "blankLoop_bad", "canonical_has_no_fragment", "value_preserved", "warn_eq_error", "verdict_ignores_validation_state", "notdup_ignores_valid",
         "decides_isEmail", "isEmail_length_on_idna", "isEmail_accepts_short_idna",
         "messages", "messages_total", "false_verdict_records_one", "true_verdict_records_nothing", "expansion_of_chosen",
         "verdict_shape",
@@ -1276,12 +1783,14 @@ class C15(Property):
         "decides_hasAtLeast", "decides_hasAtMost", "decides_hasBetween",
         "decides_setWithKnownFields", "decides_setWithAllFields", "decides_luhn10")]
     generated_obligations = ["Flatland.C15.Proofs.shapes_ok"]
-    quick_n = 100000
+    quick_n = 80000
     case_timeout = 30   # per-case alarm (run_impl and oracle each): a hang is reported as an oracle failure
     thorough_n = 800000
     trusted_base = [
         "the element view (value, u, label, siblings, raw keys, resolved field paths) is read off the real element by the harness and re-asserted on every run",
-        "urllib.parse.urlparse/urlunparse and the idna codec are opaque: their results on the element's value are inputs of the model (IsEmail/URL* are covered by correspondence + oracle only)",
+        "urllib.parse.urlparse (and the derived attributes username/password/hostname/port of its result) and the idna codec are opaque: the parse record of the element's value (and of value.strip()) is an input of the model, taken from the real urllib.parse or from the stand-in object of the case; the URL validators' own logic (checks, order, message keys, blanking, rebuild) is modelled and proved over ALL parse records",
+        "urllib.parse.urlunparse/urlunsplit are transcribed by hand (stdUnparse/stdUnsplit), pinned against the running interpreter's source by the extractor and compared with the real function on every URLCanonicalizer case; uses_netloc is regenerated (Flatland/Generated/C15Url.lean)",
+        "the six items of a parse result are texts (URLCanonicalizer's `current is not None` branch is outside the model)",
         "message templates come from the regenerated table Flatland/Generated/C16Catalogues.lean; expansion is the C16 model",
         "Python comparison/equality of natives modelled for None/str/int/bool only (no float, Decimal, date)",
         "str.isspace code points and IsEmail.domain_pattern are re-implemented by hand (pinned by the extractor)",
@@ -1290,19 +1799,22 @@ class C15(Property):
         "the model covers String/Integer/Boolean scalars, List/Array of them, Dict of them, with int/str/bool parameters; Float and Decimal elements and float/Decimal parameters (inf, nan, sNaN, non-integral, 1e999) are generated but oracle-only (tag model=oracle-only): the Lean `Val` has no such numbers",
         "MapEqual field paths are plain child names resolved by the harness (path evaluation is C14's subject)",
         "network validators on non-text values are not compared with the model",
-        "never generated: custom comparator/transform/domain_pattern/urlparse objects, note_warning, NotDuplicated on container members, MapEqual with nested or '..' paths (path evaluation is C14's), ValueIn with set/dict containers (a str container is modelled)",
+        "HTTPURLValidator: `required_parts[part] is True` is read as the code reads it — the part has a value (is not None); for the six tuple parts, which are '' when absent, such a rule never fails (noted, not counted as a finding: tests/validation/test_network.py uses '' as a legitimate scheme value)",
+        "stand-in urlparse objects are the standard functions with listed deviations (urlparse raising ValueError/TypeError/KeyError, derived attributes overridden or raising ValueError, urlunparse returning other text / None / raising); note_warning is exercised by rebinding note_error to the real Validator.note_warning on 5% of the cases",
+        "never generated: custom comparator/transform/domain_pattern objects, NotDuplicated on container members, MapEqual with nested or '..' paths (path evaluation is C14's), ValueIn with set/dict containers (a str container is modelled)",
         "IsEmail: the docstring says the IDN domain must be 'less than 253 characters', the code accepts exactly 253; spec B and the oracle follow the code's reading (<= 253, the DNS limit) — a documentation discrepancy, not counted as a finding",
     ]
     level_text = "proof"
-    level_note = ("partial: the per-class decision theorems, Luhn equivalence, first-occurrence, value preservation and message theorems are proved for all "
-                  "inputs on model A; IsEmail is decided relative to the opaque idna conversion (all length assertions on the converted domain: isEmail_length_on_idna); "
-                  "URLValidator/HTTPURLValidator/URLCanonicalizer are modelled for control flow only (urlparse opaque) and "
-                  "rest on correspondence; the full statement C15_Full is proved (the former exceptions D-C15-5/6/7 are fixed in /repo)")
+    level_note = ("partial: the per-class decision theorems (now including URLValidator, HTTPURLValidator, URLCanonicalizer over the opaque parse record: verdict <=> the docstring's "
+                  "predicate on the parsed parts, which message key is noted, the canonical value is the rebuild of the kept parts, untouched on failure, idempotent when the rebuild is stable), "
+                  "Luhn equivalence, first-occurrence, value preservation and message theorems are proved for all inputs on model A; IsEmail is decided relative to the opaque idna conversion; "
+                  "C15_Full is refuted by the KF-C15-a witness (HTTPURLValidator on an element without a value: C15_full_fails) and C15_partial proves everything outside that class; "
+                  "KF-C15-b (a rule on `netloc` is never looked at: http_netloc_rule_ignored) is a second negation witness; urlparse itself, idna and the derived netloc attributes stay opaque")
     technique = "Lean 4 model + theorems (refinement to the documented predicate per class) + differential correspondence + Python oracle"
     rule = ("every validator class x random parameterisations x String/Integer/Boolean elements set with None / adapted / unadapted text / blank / never set, "
             "List/Array with 0-5 members, members with duplicates at random positions, Dicts set with dict / pairs / flat / non-iterable / malformed raw values, "
             "Float/Decimal elements (8% of cases: inf, nan, sNaN, 1e999, 1.5, 4111111111111111.0 …) against Luhn10, the value-bound validators, ValueIn, ValuesEqual, NotDuplicated; e-mail and URL shape pools plus random assembly, e-mail domains of mixed ASCII / non-ASCII labels steered to every side of 253 characters as text and in IDN form (incl. text <= 253 < IDN), optional local_part_pattern; 6% hostile stream (validator on an element kind it is not documented for, missing field path, "
-            "negative counts, None bounds, ValueIn with a str as container, illegal discard_parts names); 7% of cases override message attributes (incl. the empty text, plural triples), 4% of scalar elements get value/u assigned directly; Dicts are also set from one-shot iterators, generators and dict views, SparseDict 15%; NotDuplicated also on children of a Dict; 20% of cases start with pre-existing errors (incl. the very message).  non-trivial = the validator returned a verdict")
+            "negative counts, None bounds, ValueIn with a str as container, illegal discard_parts names); 7% of cases override message attributes (incl. the empty text, plural triples), 4% of scalar elements get value/u assigned directly; Dicts are also set from one-shot iterators, generators and dict views, SparseDict 30% — two thirds of them with 1-3 member operations (pop / del / clear / item assignment of declared and undeclared keys) between the set() and the validator call; NotDuplicated also on children of a Dict; 45% of the List/Array/fields cases (NotDuplicated, HasAtLeast/AtMost/Between, MapEqual family) carry prior validation state on the container and its children — an earlier whole-tree validate() with other validators in the member chain, members repaired / appended afterwards, .valid assigned True / False / Unevaluated, left-over errors — which no documented predicate reads; 20% of cases start with pre-existing errors (incl. the very message).  non-trivial = the validator returned a verdict")
 
     def corpus(self):
         out = []
@@ -1346,6 +1858,24 @@ class C15(Property):
                 out.append({"v": {"cls": cls}, "build": {"kind": "Dict", "name": "d", "fields": ["x", "y"],
                                                         "history": [{"t": "dict", "pairs": [["x", "1"], ["z", "3"]]}],
                                                         "raw": {"t": "garbage", "g": g}}})
+        # seeded C15-notduplicated-skips-invalid-siblings: the earlier occurrence failed another validator / carries a stale flag
+        lst = {"kind": "List", "name": "colors", "member": "String", "member_name": "color"}
+        out.append({"v": {"cls": "NotDuplicated"}, "build": dict(lst, values=["ab", "ab"], index=1, vstate={
+            "prevalidate": True, "member_validators": [["NotDuplicated"], ["LongerThan", 3]]})})
+        out.append({"v": {"cls": "NotDuplicated"}, "build": dict(lst, values=["x", "x"], index=2, vstate={
+            "prevalidate": True, "member_validators": [["NotDuplicated"]], "repair": [[0, "y"]], "append": ["x"]})})
+        out.append({"v": {"cls": "NotDuplicated"}, "build": dict(lst, values=["a", "a"], index=1, vstate={"flags": [[0, False]]})})
+        out.append({"v": {"cls": "NotDuplicated"}, "build": dict(lst, values=["a", "b", "a"], index=2, vstate={
+            "flags": [[0, False], [1, None], ["container", False]], "sib_errors": [[0, ["left over"]]]})})
+        # seeded C15-setwithknown-checks-current-members: a SparseDict set() with allowed keys, a member dropped, then validated
+        for after in ([{"op": "pop", "key": "y"}], [{"op": "del", "key": "x"}], [{"op": "clear"}],
+                      [{"op": "pop", "key": "x"}, {"op": "assign", "key": "x"}]):
+            for cls in ("SetWithKnownFields", "SetWithAllFields"):
+                out.append({"v": {"cls": cls}, "build": {"kind": "Dict", "name": "point", "fields": ["x", "y"], "sparse": True,
+                                                        "raw": {"t": "dict", "pairs": [["x", "1"], ["y", "2"]]}, "after": after}})
+        out.append({"v": {"cls": "SetWithKnownFields"}, "build": {"kind": "Dict", "name": "point", "fields": ["x", "y"], "sparse": True,
+                                                                 "raw": {"t": "dict", "pairs": [["x", "1"], ["y", "2"], ["z", "3"]]},
+                                                                 "after": [{"op": "pop", "key": "x"}]}})
         # fixed fe503f0 (audit rev3a C15-1): set() from a one-shot iterator / generator
         for t, pairs in (("iter", [["a", "1"], ["b", "2"]]), ("iter", [["a", "1"], ["b", "2"], ["z", "3"]]), ("gen", [["a", "1"], ["b", "2"]])):
             for cls in ("SetWithAllFields", "SetWithKnownFields"):
@@ -1357,6 +1887,32 @@ class C15(Property):
         out.append({"v": {"cls": "ValueIn", "valid_options": "yes"}, "build": {"kind": "Integer", "name": "yn", "set": 5}})
         out.append({"v": {"cls": "ValueIn", "valid_options": "yes"}, "build": {"kind": "String", "name": "yn", "set": "es"}})
         out.append({"v": {"cls": "URLCanonicalizer", "discard_parts": ["scheme", "path"]}, "build": {"kind": "String", "name": "url", "set": None}})
+        # open KF-C15-b: a rule on netloc is never looked at (all_parts has nine of the ten documented names)
+        out.append({"v": {"cls": "HTTPURLValidator", "required_parts": [["netloc", ["example.com"]]]},
+                    "build": {"kind": "String", "name": "url", "set": "http://evil.example/"}})
+        out.append({"v": {"cls": "HTTPURLValidator", "required_parts": [["netloc", ["example.com"]]], "all_parts": HTTP_PARTS + ["netloc"]},
+                    "build": {"kind": "String", "name": "url", "set": "http://evil.example/"}})
+        # one witness per message key / branch of the URL validators, every message attribute with its own text
+        for cls, vd, url in (
+                ("URLValidator", {}, "http://[::1"), ("URLValidator", {}, "example.com"), ("URLValidator", {"allowed_schemes": ["https"]}, " http://h/ "),
+                ("URLValidator", {"allowed_parts": ["scheme", "netloc"]}, "http://h/p"), ("URLValidator", {"allowed_parts": ["scheme", "netloc"]}, "\u00a0http://h\t"),
+                ("HTTPURLValidator", {}, "http://h:x/"), ("HTTPURLValidator", {}, "http://h:99999/"), ("HTTPURLValidator", {}, "ftp://h/"),
+                ("HTTPURLValidator", {}, "http:///p"), ("HTTPURLValidator", {}, "http://u:p@h/"), ("HTTPURLValidator", {}, "http://[::1]:80/"),
+                ("HTTPURLValidator", {"required_parts": [["port", ["80", "443"]]]}, "http://h:80/"),
+                ("HTTPURLValidator", {"required_parts": [["port", ["80", "443"]]]}, "http://h:8080/"),
+                ("HTTPURLValidator", {"forbidden_parts": [["hostname", ["h"]], ["scheme", True]], "required_parts": [["scheme", ["http"]]]}, "http://h/"),
+                ("HTTPURLValidator", {"lib": {"attrs": {"hostname": "raises"}}}, "http://h/"),
+                ("HTTPURLValidator", {"lib": {"parse_raises": "TypeError"}}, "http://h/"),
+                ("URLCanonicalizer", {}, "http://h/p?q#f"), ("URLCanonicalizer", {}, "http://[::1"), ("URLCanonicalizer", {"discard_parts": ["netloc", "query"]}, "http://h/p?q#f"),
+                ("URLCanonicalizer", {"discard_parts": ["scheme"]}, "http://h/p"), ("URLCanonicalizer", {"discard_parts": ["path"]}, "x-y:p;a?q"),
+                ("URLCanonicalizer", {"lib": {"unparse": "upper"}}, "http://h/p#f"), ("URLCanonicalizer", {"lib": {"unparse": "raises"}}, "http://h/p#f"),
+                ("URLCanonicalizer", {"lib": {"parse_raises": "KeyError"}}, "http://h/p#f")):
+            vd = dict(vd, cls=cls, messages=[[k, "K:" + k + " %(label)s"] for k in URL_KEYS[cls]])
+            out.append({"v": vd, "build": {"kind": "String", "name": "url", "set": url}})
+        # note_warning in place of note_error
+        out.append({"v": {"cls": "Present", "note": "warning"}, "build": {"kind": "String", "name": "s", "set": ""}, "pre_warnings": ["earlier"]})
+        out.append({"v": {"cls": "HTTPURLValidator", "note": "warning"}, "build": {"kind": "String", "name": "url", "set": "ftp://h/"},
+                    "pre_errors": ["earlier problem"]})
         # message attribute overridden with the empty text: a false verdict that records nothing
         out.append({"v": {"cls": "Present", "messages": [["missing", ""]]}, "build": {"kind": "String", "name": "s", "set": ""}})
         out.append({"v": {"cls": "URLCanonicalizer", "discard_parts": ["port"]}, "build": {"kind": "String", "name": "url", "set": "http://a.example/"}})
@@ -1380,6 +1936,8 @@ class C15(Property):
         for c in boundary_scalar_cases():
             yield finish(c)
         for c in all_dup_positions():
+            yield finish(c)
+        for c in vstate_dup_cases():
             yield finish(c)
         # every member count 0..5 against every bound 0..4
         for n in range(0, 6):
@@ -1409,18 +1967,34 @@ class C15(Property):
                     ops = [copy.deepcopy(pool[i]) for i in seq]
                     yield finish({"v": {"cls": cls}, "build": {"kind": "Dict", "name": "d", "fields": flds,
                                                               "history": ops[:-1], "raw": ops[-1]}})
+        # SparseDict: every raw key set out of 4 x every sequence of 1-2 member operations out of 6, both validators
+        mops = [{"op": "pop", "key": "a"}, {"op": "pop", "key": "b"}, {"op": "del", "key": "a"}, {"op": "clear"},
+                {"op": "assign", "key": "b"}, {"op": "assign", "key": "a"}]
+        for keys in (["a", "b"], ["a"], ["a", "b", "z"], []):
+            for length in (1, 2):
+                for seq in itertools.product(range(len(mops)), repeat=length):
+                    for cls in ("SetWithKnownFields", "SetWithAllFields"):
+                        yield finish({"v": {"cls": cls}, "build": {"kind": "Dict", "name": "d", "fields": flds, "sparse": True,
+                                                                  "raw": {"t": "dict", "pairs": [[k, "v"] for k in keys]},
+                                                                  "after": [copy.deepcopy(mops[i]) for i in seq]}})
         # Luhn: every number below 2000 (thorough: 20000)
         top = 20000 if tier == "thorough" else 2000
         for n in range(0, top):
             yield finish({"v": {"cls": "Luhn10"}, "build": {"kind": "Integer", "name": "cc", "set": n}})
 
     exhaustive_note = ("every comparison class at value = bound-1, bound, bound+1, None, unadapted; length classes at every length 0..6; "
-                       "NotDuplicated with one duplicate at every pair of positions of a 4-member List/Array checked at every index; "
-                       "member counts 0..5 against every bound 0..4; SetWithKnownFields/SetWithAllFields after every sequence of 2 (thorough: also 3) inputs out of 11 kinds (complete / stray key / missing key / pairs / set_flat / None / five kinds of garbage); IsEmail on 1..32 international labels (text length vs IDN length around 253) and on 60/62/63/64-character ASCII labels; Luhn10 on every integer below 2000 (thorough: 20000)")
+                       "NotDuplicated with one duplicate at every pair of positions of a 4-member List/Array checked at every index; NotDuplicated at every member of every 2-3 member list over two values after a whole-tree validate() under three member chains and under every assignment of valid in {True, False, Unevaluated} to the members; "
+                       "member counts 0..5 against every bound 0..4; SetWithKnownFields/SetWithAllFields on a SparseDict set with each of 4 key sets followed by every sequence of 1-2 member operations (pop / del / clear / item assignment) out of 6; SetWithKnownFields/SetWithAllFields after every sequence of 2 (thorough: also 3) inputs out of 11 kinds (complete / stray key / missing key / pairs / set_flat / None / five kinds of garbage); IsEmail on 1..32 international labels (text length vs IDN length around 253) and on 60/62/63/64-character ASCII labels; Luhn10 on every integer below 2000 (thorough: 20000)")
 
     def generate(self, rng, n, tier):
         for _ in range(n):
-            yield PROP_GEN(rng)
+            f = rng.choices([m for m, _ in _MAKERS], [w for _, w in _MAKERS])[0]
+            case = with_pre_errors(rng, f(rng))
+            if rng.random() < 0.05 and not _tagged(case["v"]):
+                # the validator reports through note_warning (same key, same keywords): warnings in place of errors
+                case["v"]["note"] = "warning"
+                case["pre_warnings"], case["pre_errors"] = case.get("pre_errors", []), rng.choice([[], [], ["earlier problem"]])
+            yield finish(case)
 
     def has_model(self, case):
         def ok(x):
@@ -1438,8 +2012,6 @@ class C15(Property):
             return False  # float / Decimal / bytes … values anywhere in the view: oracle only
         view = case["view"]
         if not ok(view.get("value")) or not ok(view.get("label")):
-            return False
-        if view.get("canon") and not ok(view["canon"]["v"]):
             return False
         if any(not ok(k) for k in (view.get("raw") or {}).get("keys", [])):
             return False
@@ -1465,6 +2037,9 @@ class C15(Property):
                 and cl == "verdict-equals-documented-condition" and failure.get("observed") is True \
                 and failure.get("_errors_unchanged") and failure.get("_warnings_unchanged") and failure.get("_value_unchanged"):
             return "KF-C15-a"
+        if v["cls"] == "HTTPURLValidator" and cl == "rule-on-a-documented-part-name-is-honoured" and failure.get("_part") == "netloc" \
+                and failure.get("_default_all_parts"):
+            return "KF-C15-b"
         b = case["build"]
         if v["cls"] == "NotDuplicated" and b.get("member") == "Decimal" and "index" in b \
                 and cl == "returns-a-verdict-without-raising" and failure.get("observed") == "InvalidOperation" \
@@ -1499,6 +2074,26 @@ class C15(Property):
             t.append("hyp:messages_total=holds")
         if b.get("history"):
             t.append("history=%d" % len(b["history"]))
+        vs = b.get("vstate")
+        if vs:
+            t.append("prior-validation-state")
+            for k in ("prevalidate", "member_validators", "repair", "append", "flags", "sib_errors"):
+                if vs.get(k):
+                    t.append("vstate:" + k)
+            st = case["view"].get("sibling_state") or []
+            pos = case["view"].get("pos")
+            if pos is not None and any(x[0] is False for x in st[:pos]):
+                t.append("vstate:earlier-sibling-invalid")
+        if b.get("sparse"):
+            t.append("sparse-dict")
+        if b.get("after"):
+            t.append("member-ops-after-set=%d" % len(b["after"]))
+            for a in b["after"]:
+                t.append("member-op=" + a["op"])
+        if v["cls"] in URL_KEYS:
+            t += url_tags(case, obs)
+        elif v.get("note") == "warning":
+            t.append("note_warning")
         if v["cls"] == "IsEmail":
             ec = email_class(view.get("value"))
             if ec:
@@ -1523,6 +2118,20 @@ class C15(Property):
         for i in range(len(b.get("history", []))):
             c = copy.deepcopy(case)
             del c["build"]["history"][i]
+            r = redo(c)
+            if r:
+                yield r
+        for k in list(b.get("vstate", {}).keys()):
+            c = copy.deepcopy(case)
+            del c["build"]["vstate"][k]
+            if k == "append" and "index" in b:
+                continue
+            r = redo(c)
+            if r:
+                yield r
+        for i in range(len(b.get("after", []))):
+            c = copy.deepcopy(case)
+            del c["build"]["after"][i]
             r = redo(c)
             if r:
                 yield r
